@@ -35,9 +35,9 @@ func fuzzSeeds() [][]byte {
 			fuzzSeedList = append(fuzzSeedList, kg.Example(i))
 		}
 		for _, h := range []string{
-			"a20102206161",             // COSE_Key with textual curve (F1)
-			"d28440a10780f640",         // Sign1 {7: []}
-			"d28440a107f6f64101",       // Sign1 {7: null}
+			"a20102206161",       // COSE_Key with textual curve (F1)
+			"d28440a10780f640",   // Sign1 {7: []}
+			"d28440a107f6f64101", // Sign1 {7: null}
 			"d28440a1fb7ff8000000000000a2f97e0001f97e000241004101", // NaN duplicate keys in a nested map
 			"d284405fff4041ff", "d2849f40a0f64101ff",
 			"d28441a0a0f64101", "8441a0a0f64101", "d8628440a0f68183 40a04101",
